@@ -9,7 +9,7 @@ use serde::{Deserialize, Serialize};
 pub const INFO: PropInfo = PropInfo {
     id: "C08",
     level: "exploration",
-    rule: "cases = (subshell kind: ( ), $( ) in an assignment / argument / redirection operand, each position of a 2-3 command pipeline, asynchronous list + wait, nested combinations; sequence of 1-5 state mutators from a 60-entry catalogue: scalar/array assignment, unset, export, readonly, function define/unset, alias/unalias, set -o/+o for each safe option, set --/shift, cd, umask, trap command/ignore/reset incl. EXIT, exec redirections opening/closing/duplicating fds 3-9, ${x=..}, $((x=..)), read, getopts; schedule: FIFO or seeded with preemption). Oracle: full parent snapshot (variables with attributes, functions, aliases, options, positional parameters, traps, cwd, umask, descriptor table with open-file-description identity, signal dispositions of the simulated process) before == after the subshell command; child view at subshell entry == parent snapshot except that traps with command actions are default (ignored stay ignored, dispositions in the simulated process agree). Exhaustive: kind x single mutator; random: sequences. Non-trivial = the mutators really changed the child's state (child snapshot after != before); distinct by serialised case.",
+    rule: "cases = (subshell kind: ( ), $( ) in an assignment / argument / redirection operand, each position of a 2-3 command pipeline, asynchronous list + wait, nested combinations; how the subshell ends: falls off the end, exit 3, killed by SIGTERM / SIGINT / SIGQUIT sent to itself; shell non-interactive (-c) or interactive (-i, script on standard input); sequence of 1-5 state mutators from a 60-entry catalogue: scalar/array assignment, unset, export, readonly, function define/unset, alias/unalias, set -o/+o for each safe option, set --/shift, cd, umask, trap command/ignore/reset incl. EXIT, exec redirections opening/closing/duplicating fds 3-9, ${x=..}, $((x=..)), read, getopts; schedule: FIFO or seeded with preemption). Oracle: full parent snapshot (variables with attributes, functions, aliases, options, positional parameters, traps, cwd, umask, descriptor table with open-file-description identity, signal dispositions of the simulated process) before == after the subshell command; child view at subshell entry == parent snapshot except that traps with command actions are default (ignored stay ignored, dispositions in the simulated process agree). Exhaustive: kind x single mutator; random: sequences. Non-trivial = the mutators really changed the child's state (child snapshot after != before); distinct by serialised case.",
     assumptions: &[
         "observable parent state = what the snapshot records; `$?`, `$!`, the job list and the variable assigned by `x=$(...)` are excluded by construction",
         "interleavings at blocking points and preemption points only",
